@@ -31,6 +31,7 @@ package challenger
 //@ def ch_get_st(v) = mktuple(30, k, ch_get_st_k(v, k))
 
 //@ func (c *Chip) duplexing()
+//@   locals glApi i i
 //@   props C11 C05
 //@   circuit
 //@   requires chipok(c.poseidonChip.Gl) && len(c.inputBuffer) <= 8 && canonState(c.spongeState)
@@ -55,6 +56,7 @@ package challenger
 //@   complete_ensures forall(k, 0, len(c.inputBuffer), c.inputBuffer[k].Limb < pow2(144) * P)
 
 //@ func (c *Chip) GetChallenge() (res gl.Variable)
+//@   locals challenge
 //@   props C11 C05 C14
 //@   circuit
 //@   reveal ch_get_st_k ch_get_val
@@ -76,6 +78,7 @@ package challenger
 //@ def ch_small(c) = forall(k, 0, len(c.inputBuffer), c.inputBuffer[k].Limb < pow2(144) * P)
 
 //@ func (c *Chip) ObserveElements(elements []gl.Variable)
+//@   locals i
 //@   props C11 C05
 //@   circuit
 //@   requires ch_ok(c)
@@ -89,6 +92,7 @@ package challenger
 //@   loop 0 invariant 0 <= i && i <= len(elements) && ch_ok(c) && implies(complete, ch_small(c)) && ch_view(c) == ch_obs_seq(old(ch_view(c)), elements, i)
 
 //@ func (c *Chip) ObserveHash(hash poseidon.GoldilocksHashOut)
+//@   locals elements
 //@   props C11 C05
 //@   circuit
 //@   requires ch_ok(c)
@@ -101,6 +105,7 @@ package challenger
 //@   complete_ensures ch_small(c)
 
 //@ func (c *Chip) ObserveBN254Hash(hash poseidon.BN254HashOut)
+//@   locals elements
 //@   props C11 C05
 //@   circuit
 //@   requires ch_ok(c)
@@ -113,6 +118,7 @@ package challenger
 //@   complete_ensures ch_small(c)
 
 //@ func (c *Chip) ObserveCap(cap []poseidon.BN254HashOut)
+//@   locals i
 //@   props C11 C05
 //@   circuit
 //@   requires ch_ok(c)
@@ -138,6 +144,7 @@ package challenger
 //@   complete_ensures ch_small(c)
 
 //@ func (c *Chip) ObserveExtensionElements(elements []gl.QuadraticExtensionVariable)
+//@   locals i
 //@   props C11 C05
 //@   circuit
 //@   requires ch_ok(c)
@@ -151,6 +158,7 @@ package challenger
 //@   loop 0 invariant 0 <= i && i <= len(elements) && ch_ok(c) && implies(complete, ch_small(c)) && ch_view(c) == ch_obs_qes(old(ch_view(c)), elements, i)
 
 //@ func (c *Chip) ObserveOpenings(openings fri.Openings)
+//@   locals i
 //@   props C11 C05
 //@   circuit
 //@   requires ch_ok(c) && len(openings.Batches) == 2
@@ -163,6 +171,7 @@ package challenger
 //@   complete_ensures ch_small(c)
 
 //@ func (c *Chip) GetNChallenges(n uint64) (res []gl.Variable)
+//@   locals challenges i
 //@   props C11 C05
 //@   circuit
 //@   requires ch_ok(c) && n <= pow2(32)
@@ -178,6 +187,7 @@ package challenger
 //@        forall(k, 0, i, canon(challenges[k]) && challenges[k].Limb == ch_get_val(ch_getn_st(old(ch_view(c)), k)))
 
 //@ func (c *Chip) GetExtensionChallenge() (res gl.QuadraticExtensionVariable)
+//@   locals values
 //@   props C11 C05
 //@   circuit
 //@   requires ch_ok(c)
@@ -198,6 +208,7 @@ package challenger
 //@ def fri_after_pow(v, caps, coeffs, pw) = ch_observe(ch_obs_qes(fri_commit_st(fri_after_alpha(v), caps, len(caps)), coeffs, len(coeffs)), pw)
 
 //@ func (c *Chip) GetFriChallenges(commitPhaseMerkleCaps []variables.FriMerkleCap, finalPoly variables.PolynomialCoeffs, powWitness gl.Variable, config types.FriConfig) (res variables.FriChallenges)
+//@   locals numFriQueries friAlpha friBetas i friPowResponse friQueryIndices
 //@   props C11 C14 C05
 //@   circuit
 //@   requires ch_ok(c) && config.NumQueryRounds <= pow2(32)
@@ -218,6 +229,7 @@ package challenger
 
 //@ def ch_init() = flat(mktuple(12, k, 0), mktuple(8, k, 0), 0, mktuple(8, k, 0), 0)
 //@ func NewChip(api frontend.API) (res *Chip)
+//@   locals spongeState inputBuffer outputBuffer i poseidonChip poseidonBN254Chip
 //@   props C11
 //@   circuit sound-only
 //@   ensures ch_ok(res) && ch_view(res) == ch_init()
